@@ -31,6 +31,7 @@ type WorkPlan struct {
 	RequeueFast bool    `json:"requeue_fast,omitempty"` // ... as soon as every task has run once, and expect the re-run promptly
 	NoChan      bool    `json:"no_chan,omitempty"`      // C06: no error reporting channel is set (and stderr reporting is off): only the returned errors are checked
 	Shutdown2   bool    `json:"shutdown2,omitempty"`    // a second caller invokes Shutdown while the first call is in progress; the clauses about the return of Shutdown hold for both
+	Failing     int     `json:"failing,omitempty"`      // C05: module Failing-1 reports a warning and resolves it while the stop is under way, with a failure notification function installed that takes a moment (the notification runs as a worker of the module)
 	Flip        int     `json:"flip,omitempty"`         // C06 with management: module Flip-1 is disabled and, FlipDur later, enabled again without a management pass in between (no effect on the running module)
 	FlipDur     int     `json:"flip_dur,omitempty"`     // flipLadder index
 	Warm        bool    `json:"warm,omitempty"`         // C05 with management: all modules are stopped and started once before the workload, with a worker started on each stopped module that outlives the restart
@@ -228,6 +229,9 @@ func genWork(rng *rand.Rand, tier, prop string) *WorkPlan {
 		}
 	}
 	p.Shutdown2 = prop == "C05" && rng.IntN(5) == 0
+	if prop == "C05" && rng.IntN(5) == 0 {
+		p.Failing = 1 + rng.IntN(n)
+	}
 	if prop == "C06" && p.Mgmt && rng.IntN(3) == 0 {
 		p.Flip, p.FlipDur = 1+rng.IntN(n), rng.IntN(len(flipLadder))
 	}
@@ -514,6 +518,14 @@ func execWork(prop string, p *WorkPlan, rc *simkit.RunCtx) {
 	rc.Data = s
 	s.startT, s.stopT = modules.VerifSimTimeouts()
 	modules.SetMaxConcurrentMicroTasks(p.Limit)
+	if p.Failing > 0 {
+		d := durLadder[p.Failing%3]
+		modules.SetFailureUpdateNotifyFunc(func(uint8, string, string, string) {
+			if d > 0 {
+				time.Sleep(d)
+			}
+		})
+	}
 	s.errCh = make(chan *modules.ModuleError, 4096)
 	if !p.NoChan {
 		if p.Limit%2 == 0 {
@@ -681,6 +693,18 @@ func execWork(prop string, p *WorkPlan, rc *simkit.RunCtx) {
 		}
 	}
 	s.stopPhase = true
+	if p.Failing > 0 && p.Failing <= len(s.mods) && s.startErr == nil {
+		fm := s.mods[p.Failing-1]
+		failDone := make(chan struct{})
+		go func() {
+			defer close(failDone)
+			fm.Warning("sim-warning", "simulated", "a warning raised while the stop is under way")
+			time.Sleep(time.Millisecond)
+			fm.Resolve("sim-warning")
+		}()
+		defer func() { <-failDone }()
+		rc.Probe("failure-status-changes-during-stop")
+	}
 	if p.Mgmt && len(p.StopMgmt) > 0 && s.startErr == nil {
 		for _, i := range p.StopMgmt {
 			s.mods[i].Disable()
